@@ -9,6 +9,14 @@ in").  `oracle(lines, obs)` judges one observation stream of harness/models/math
   * `rf <fn> ...`  (float run, a *test*) -> compared with the textbook value computed from the
                                             exact value of the float inputs, relative tolerance
                                             1e-9 (inputs of magnitude 1e-3 .. 1e3);
+  * `re <fn> ...`  (EXACT-DOMAIN run: genuine ints - also beyond 2**53 - and Fractions with non-dyadic
+                   denominators went in, nothing was converted) -> every entry must EQUAL the textbook
+                   value, and an entry that depends on the arguments must not come back as a float
+                   (`~v`): "exactly over the rationals" - a float there means the exact inputs were
+                   rounded, whether or not this particular value survived the rounding.  Entries that
+                   are the same for all arguments (the 0 / 1 of a translation matrix, the default
+                   matrix) may be float literals.  Signature `C18:<fn>:inexact`
+                   (`C18:default-matrix-identity:inexact` for the products with the default matrix).
   * `rx ...` lines (stand-in interpretation) and functions the property does not name are not judged.
 
 A violation is {'sig': 'C18:<fn>', 'what': text with the concrete call and the mismatch}.
@@ -141,6 +149,10 @@ def mat_exact(n, op, a):
     if op == 'matvec':
         A, v = split(a, [nn, n])
         return f'v{n}', rowvec_times(v, grid(A, n))
+    if op in ('identity_left', 'identity_right'):     # the default matrix is the identity: 1 * A = A * 1 = A
+        return k, list(a)
+    if op == 'identity_vec':
+        return f'v{n}', list(a)
     if n == 4:
         if op == 'transpose':
             A = grid(a, 4)
@@ -246,6 +258,74 @@ def judge_exact(fn, a, ob):
         i = next(i for i, (x, y) in enumerate(zip(vals, exp[1])) if x != y) if len(vals) == len(exp[1]) else -1
         return f'got {show(vals)}, textbook value {show(exp[1])} (first difference at entry {i})'
     return None
+
+
+# --------------------------------------------------------------------------- exact-domain run
+
+def textbook_entries(fn, a):
+    """Textbook value of every entry (list), or None when the function is judged by a predicate."""
+    if fn == 'clamp':
+        return [clamp(a[0], a[1], a[2])]
+    cls, _, op = fn.partition('.')
+    if cls.startswith('Vec'):
+        exp = vec_exact(int(cls[3]), op, a)
+    elif cls.startswith('Mat'):
+        exp = mat_exact(int(cls[3]), op, a)
+    else:
+        exp = None
+    return None if exp is None else exp[1]
+
+
+def constant_entries(fn, a):
+    """Positions whose textbook value is the same whatever the arguments are (found by evaluating
+    the textbook at the given and at three shifted argument lists)."""
+    if fn == 'Mat4.orthogonal_projection':
+        return {i for i in range(16) if i not in (0, 5, 10, 12, 13, 14)}
+    if fn == 'Mat4.invert':
+        return set()
+    try:
+        base = textbook_entries(fn, a)
+        if base is None:
+            return set()
+        const = set(range(len(base)))
+        for k, (p, q) in enumerate(((7, 3), (-5, 11), (13, 17))):
+            other = textbook_entries(fn, [x + F(p + 2 * i, q + k) for i, x in enumerate(a)])
+            const = {i for i in const if other[i] == base[i]}
+        return const
+    except (Raised, ZeroDivisionError):
+        return set()
+
+
+def judge_exact_domain(fn, a, ob):
+    """ob: tokens after `re <fn>`; `~v` marks an entry that came back as a float."""
+    clean = [x[1:] if x.startswith('~') else x for x in ob]
+    if any(x in ('nan', 'inf', '-inf') for x in clean):
+        return f'non-finite entry in {" ".join(ob)}'
+    msg = judge_exact(fn, a, clean)
+    if msg:
+        return msg
+    if not ob or ob[0] == 'raised' or not is_named(fn, a):
+        return None
+    floats = [i for i, x in enumerate(x for x in ob[1:] if x != 'warn') if x.startswith('~')]
+    if not floats:
+        return None
+    bad = [i for i in floats if i not in constant_entries(fn, a)]
+    if not bad:
+        return None
+    vals = [x for x in ob[1:] if x != 'warn']
+    return ('entries %s came back as floats (%s) although every argument is an exact int / Fraction: '
+            'the arguments were rounded on the way (a float literal such as 1.0 took part); exact '
+            'arguments must give exact results' % (bad, ', '.join(vals[i] for i in bad[:4])))
+
+
+def is_named(fn, a):
+    """Does the textbook above have an opinion about the function?"""
+    if fn in ('Mat4.invert', 'Mat4.orthogonal_projection'):
+        return True
+    try:
+        return textbook_entries(fn, a) is not None
+    except (Raised, ZeroDivisionError):
+        return True
 
 
 # --------------------------------------------------------------------------- float tests
@@ -388,6 +468,10 @@ def oracle(lines, obs):
             elif t[0] == 'swz' and o[:2] == ['r', 'swz']:
                 msg = judge_swizzle(t[1], t[2], [F(x) for x in t[3:]], o[4:])
                 sig = f'{t[1]}.swizzle'
+            elif t[0] == 'calle' and o[0] == 're':
+                msg = judge_exact_domain(t[1], [F(x) for x in t[2:]], o[2:])
+                # "with the default matrix as identity" is one clause of the property
+                sig = ('default-matrix-identity' if '.identity_' in t[1] else t[1]) + ':inexact'
             elif t[0] == 'callx' and o[0] == 'rx':
                 continue
             else:
